@@ -348,6 +348,13 @@ def replay_b(chk, pid, rnd, epoch, days, nsample, maxenv=2, nlate=0):
         guided.sort(key=lambda s: -len(s['h']))
         guided = guided[:nlate]
         scheds = first + rest[:nsample] + guided
+    elif nlate and len(guided) > 20 * nlate:
+        # every transition of the ordinary configurations; the guided ones (a poll every 10 s: ~100 lines each) are capped
+        rnd.shuffle(guided)
+        guided.sort(key=lambda s: -len(s['h']))
+        guided = guided[: 20 * nlate]
+        keep = {id(s) for s in guided}
+        scheds = [s for s in scheds if not s['cfg']['late'] or id(s) in keep or not any(h['ev'] in ('Pause', 'LateTick') for h in s['h'])]
     jobs = fire_jobs(scheds, epoch, days)
     files = chk.run_harness('moment_h', jobs)
     chk.traces += len(jobs)
